@@ -20,7 +20,7 @@ def run(ctx):
     cov = SL.coverage(ctx, "scenarios of 2-4 threads on one primitive (mutex: contenders, recursive owner, tryLock, also on Mutex objects with static storage duration constructed before / after the library's own statics; semaphore: waiters/signalers with wait, tryWait, "
                            "timed wait; signal: waiters, setter, resetter, timed waits; monitor: waiter + set after lock, timed waiters, no set; thread: join result, "
                            "double start, destructor join, the same Thread object started again after join; timed-wait deadline arithmetic for start-nsec in {0, 999000000, 999999999} x timeout in {0,1,999,1000,"
-                           "1001,2500} ms on Signal/Monitor/Semaphore); every schedule with <= %d preemptions and <= %d environment deviations (spurious condition "
+                           "1001,2500,4294967,4294968,4295000} ms (the last three around 2^32 microseconds) on Signal/Monitor/Semaphore); every schedule with <= %d preemptions and <= %d environment deviations (spurious condition "
                            "wake-up, timeout firing early in the schedule, sem_wait / sem_timedwait interrupted with EINTR while they would block); time advances to the earliest deadline when nobody can run; deadlock = a thread stays "
                            "blocked forever" % (pb, eb), {"preemption_bound": pb, "deviation_bound": eb})
     return ctx.finish("model_checking", cov,
